@@ -26,6 +26,8 @@ type fieldCase struct {
 	Xall bool   `json:"xall"` // x ranges over all 7^4 class words
 	Yall bool   `json:"yall"` // y too (complete cross product)
 	Diag bool   `json:"diag"` // y = x
+	Band int    `json:"band"` // >= 0: only the x-words number band, band+8, band+16, ..
+	Ysub bool   `json:"ysub"` // y over the words with limb classes in {0, 2^64-1, q_i} only
 	// codec
 	Fn  string `json:"fn"`
 	Len int    `json:"len"`
@@ -147,7 +149,12 @@ func (d *driver) runFieldCase(w emitter, k int, c *fieldCase) {
 		d.runFieldOne(w, k, c)
 		return
 	}
+	xi := -1
 	allClassWords(func(cx []int) {
+		xi++
+		if c.Band >= 0 && xi%8 != c.Band {
+			return
+		}
 		c1 := *c
 		c1.Cx = cx
 		switch {
@@ -156,6 +163,13 @@ func (d *driver) runFieldCase(w emitter, k int, c *fieldCase) {
 			d.runFieldOne(w, k, &c1)
 		case c.Yall:
 			allClassWords(func(cy []int) {
+				if c.Ysub {
+					for _, v := range cy {
+						if v != 0 && v != 3 && v != 5 {
+							return
+						}
+					}
+				}
 				c2 := c1
 				c2.Cy = cy
 				d.runFieldOne(w, k, &c2)
